@@ -208,3 +208,5 @@ def run(ctx):
             else:
                 r.ok(inst, func=s.name, loc=c.loc, facts={'outcomes': sorted({(k, vv) for k, vv, _ in outs}, key=str)})
     r.require_min(2)
+    ctx.borrow('c09', ['R09d'], 'helper getters accept only native-order headers: that is what rejects opposite-endian fragments')
+    ctx.borrow('c10', ['R10e'], 'a rebuilt fragment validates only if its checksum is taken after the backend wrote the payload')
